@@ -221,7 +221,7 @@ func genShapes(repo string) {
 	// its condition and what its body does (continue / break / recurse+break / other)
 	var minScope []string
 	sp := parseDir(filepath.Join(repo, "langserver/check/common"))
-	if fd := sp.funcDecl("FindMinScope"); fd != nil {
+	if fd := sp.methodDecl("ScopeInfo", "FindMinScope"); fd != nil {
 		for _, st := range fd.Body.List {
 			switch x := st.(type) {
 			case *ast.IfStmt:
@@ -253,6 +253,138 @@ func genShapes(repo string) {
 		fail("FindMinScope not found")
 	}
 	b.WriteString("/-- FindMinScope: guard, loop and the `if`s of the loop body in source order -/\n")
-	b.WriteString("def findMinScopeShape : List String := " + leanStrList(minScope) + "\n\nend LuaHelper.Gen\n")
+	b.WriteString("def findMinScopeShape : List String := " + leanStrList(minScope) + "\n\n")
+	// skeletons of the functions that decide where a local is visible and in which order a local statement
+	// analyses its initialisers and declares its names
+	interesting := map[string]bool{"cgExp": true, "AddLocVar": true, "InsertCompleteVar": true, "isCorrectPosition": true,
+		"IsCorrectPosition": true, "findLocVar": true}
+	ap := parseDir(filepath.Join(repo, "langserver/check/analysis"))
+	skel := func(pk *pkgFiles, recv, name string) []string {
+		fd := pk.methodDecl(recv, name)
+		if fd == nil {
+			fail("%s.%s not found", recv, name)
+		}
+		var out []string
+		for _, st := range fd.Body.List {
+			if t := stmtSkel(st, 3, interesting); t != "" {
+				out = append(out, t)
+			}
+		}
+		return out
+	}
+	b.WriteString("/-- isCorrectPosition (var_info.go): the visibility test of the position-based lookup -/\n")
+	b.WriteString("def correctPositionShape : List String := " + leanStrList(skel(sp, "VarInfo", "isCorrectPosition")) + "\n\n")
+	b.WriteString("/-- findLocVar (scope_info.go): the declarations of a name are tried from the last one backwards -/\n")
+	b.WriteString("def findLocVarShape : List String := " + leanStrList(skel(sp, "ScopeInfo", "findLocVar")) + "\n\n")
+	b.WriteString("/-- GetCompleteVar (scope_info.go): the candidate test of completion -/\n")
+	b.WriteString("def completeVarShape : List String := " + leanStrList(skel(sp, "ScopeInfo", "GetCompleteVar")) + "\n\n")
+	// cgLocalVarDeclStat: per top-level statement the calls of cgExp / AddLocVar inside it (statements without any are left out)
+	var declCalls []string
+	if fd := ap.methodDecl("Analysis", "cgLocalVarDeclStat"); fd != nil {
+		for _, st := range fd.Body.List {
+			var names []string
+			ast.Inspect(st, func(m ast.Node) bool {
+				if ce, ok := m.(*ast.CallExpr); ok {
+					if se, ok := ce.Fun.(*ast.SelectorExpr); ok && (se.Sel.Name == "cgExp" || se.Sel.Name == "AddLocVar") {
+						names = append(names, se.Sel.Name)
+					}
+				}
+				return true
+			})
+			if len(names) > 0 {
+				declCalls = append(declCalls, strings.Join(names, ","))
+			}
+		}
+	} else {
+		fail("cgLocalVarDeclStat not found")
+	}
+	b.WriteString("/-- cgLocalVarDeclStat (analysis_stat.go): per top-level statement, its calls of cgExp (an initialiser is analysed) and AddLocVar (a name is declared) -/\n")
+	b.WriteString("def localDeclCalls : List String := " + leanStrList(declCalls) + "\n\nend LuaHelper.Gen\n")
 	write("Shapes.lean", b.String())
+}
+
+
+// stmtSkel: control structure of a statement down to the given depth: conditions, returns, branches, loop
+// heads, and calls of the named functions; everything else is left out
+func stmtSkel(st ast.Stmt, depth int, calls map[string]bool) string {
+	body := func(l []ast.Stmt) string {
+		if depth <= 0 {
+			return "…"
+		}
+		var parts []string
+		for _, x := range l {
+			if t := stmtSkel(x, depth-1, calls); t != "" {
+				parts = append(parts, t)
+			}
+		}
+		return strings.Join(parts, ";")
+	}
+	callsIn := func(n ast.Node) string {
+		var names []string
+		ast.Inspect(n, func(m ast.Node) bool {
+			if _, ok := m.(*ast.FuncLit); ok {
+				return false
+			}
+			if ce, ok := m.(*ast.CallExpr); ok {
+				fn := ""
+				switch f := ce.Fun.(type) {
+				case *ast.Ident:
+					fn = f.Name
+				case *ast.SelectorExpr:
+					fn = f.Sel.Name
+				}
+				if calls[fn] {
+					names = append(names, fn)
+				}
+			}
+			return true
+		})
+		if len(names) == 0 {
+			return ""
+		}
+		return "call:" + strings.Join(names, ",")
+	}
+	switch x := st.(type) {
+	case *ast.IfStmt:
+		t := "if " + exprText(x.Cond) + " {" + body(x.Body.List) + "}"
+		if x.Else != nil {
+			t += " else " + stmtSkel(x.Else, depth, calls)
+		}
+		return t
+	case *ast.BlockStmt:
+		return "{" + body(x.List) + "}"
+	case *ast.ReturnStmt:
+		var rs []string
+		for _, r := range x.Results {
+			rs = append(rs, exprText(r))
+		}
+		return "return " + strings.Join(rs, ",")
+	case *ast.BranchStmt:
+		return x.Tok.String()
+	case *ast.ForStmt:
+		h := ""
+		if x.Init != nil {
+			h += exprText(x.Init)
+		}
+		h += ";"
+		if x.Cond != nil {
+			h += exprText(x.Cond)
+		}
+		h += ";"
+		if x.Post != nil {
+			h += exprText(x.Post)
+		}
+		return "for " + h + " {" + body(x.Body.List) + "}"
+	case *ast.RangeStmt:
+		return "range " + exprText(x.X) + " {" + body(x.Body.List) + "}"
+	case *ast.SwitchStmt:
+		if x.Tag != nil {
+			return "switch " + exprText(x.Tag)
+		}
+		return "switch"
+	case *ast.TypeSwitchStmt:
+		return "typeswitch " + exprText(x.Assign)
+	default:
+		return callsIn(st)
+	}
 }
